@@ -1389,3 +1389,15 @@ M('C20', 'astype forwards the weighting only of weighted spaces', 'odl/space/bas
   "            if weighting is not None:\n                kwargs['weighting'] = weighting",
   "            if weighting is not None and getattr(self, 'is_weighted', True):\n                kwargs['weighting'] = weighting",
   'C20-R7d')
+M('C19', 'surface normal from normalised tangents', 'odl/tomo/geometry/detector.py',
+  """            normal = np.cross(*deriv, axis=-1)
+            normal /= np.linalg.norm(normal, axis=-1, keepdims=True)
+            return normal""",
+  """            deriv = deriv / np.linalg.norm(deriv, axis=-1, keepdims=True)
+            return np.cross(*deriv, axis=-1)""", 'C19-R8')
+M('C19', 'surface normal with swapped tangents', 'odl/tomo/geometry/detector.py',
+  "            normal = np.cross(*deriv, axis=-1)",
+  "            normal = np.cross(*deriv[::-1], axis=-1)", 'C19-R8')
+M('C19', '2d surface normal loses its sign', 'odl/tomo/geometry/detector.py',
+  "            return -perpendicular_vector(self.surface_deriv(param))",
+  "            return perpendicular_vector(self.surface_deriv(param))", 'C19-R8')
